@@ -580,7 +580,7 @@ func samDrive(args []string) error {
 }
 
 var samCorruptions = []string{"few-fields", "int-flag", "int-pos", "int-mapq", "int-pnext", "int-tlen", "tag-one-colon", "tag-no-colon",
-	"tag-unknown-type", "tag-A-empty", "tag-A-two", "tag-i-text", "tag-H-odd", "tag-H-nonhex", "tag-f-text"}
+	"tag-unknown-type", "tag-A-empty", "tag-A-two", "tag-i-text", "tag-H-odd", "tag-H-nonhex", "tag-f-text", "only-blanks"}
 
 // samCorruptLine makes one alignment line malformed in the given way (nil: not applicable).
 func samCorruptLine(r *rand.Rand, line []byte, kind string) []byte {
@@ -602,6 +602,8 @@ func samCorruptLine(r *rand.Rand, line []byte, kind string) []byte {
 		return join(x)
 	}
 	switch kind {
+	case "only-blanks": // not empty, but nothing in it: a malformed line like any other
+		return [][]byte{[]byte("\t\t\t"), []byte(" "), []byte("\t\t\t\t\t\t\t\t\t\t"), []byte("  \t ")}[r.Intn(4)]
 	case "few-fields":
 		cut := join(f[:1+r.Intn(10)])
 		if len(cut) == 0 {
